@@ -280,6 +280,13 @@ var c16Calls = []struct {
 		return impl.Ran{Blocks: bl, Binding: bi, Err: err, Out: take(st.outA)}.Summary() + fmt.Sprintf(" dump-unchanged=%v %v", bytes.Equal(d, st.dumpMid), derr)
 	}},
 	{"Parse(mid2)", func(st *c16State) string { return obsStr(impl.Parse(c16SrcMid2)) }},
+	// a read that delivers data together with an error: what is parsed and which error wins must not depend on the
+	// number of CPUs (the digest runs this with GOMAXPROCS 1/2/16)
+	{"ParseFile(data+error)", func(st *c16State) string {
+		return obsStr(impl.ParseFile(impl.NewScriptFile("print 1\nprint )\nprint (", []impl.Answer{{N: 8}, {N: 8, Err: "boom"}})))
+	}},
+	// (a lexical failure followed by a LATE read error is left out on purpose: whether the reader is cancelled before
+	// it reaches the failing read is a matter of timing on the unchanged tree, and C11 accepts both outcomes)
 	// a third shared Prog is re-loaded in place from its own dump and executed: positions of its warnings and of
 	// its runtime error come from the line table the load installs
 	{"Reload(pRT)+Execute", func(st *c16State) string {
@@ -498,13 +505,13 @@ func init() {
 		Level: "model_checking",
 		Rule: "(a) every map iteration order (explored exhaustively through the map-order choice point of the rewritten package) of every range-over-map executed by Bind, for the binding x target space of C15 and for Unmarshal of programs whose keys collide on one field, hold several faulty fields, or hold several named inner blocks: target and error text must be identical for all orders; " +
 			"(b) every goroutine schedule with <=B preemptions (quick 1, thorough 2) of Parse, ParseFile (3 chunks) and Interpret on corpus inputs (valid, several diagnostics, lexical failure): dump bytes, diagnostics, output, blocks, binding identical on all schedules; " +
-			"(c) every history of <=L calls (quick 3, thorough 4) over a 20-call alphabet (a Prog re-loaded in place from its own dump and executed, a second shared Prog with ~3 kB of code executed and dumped, another mid-size compilation, Parse of 3 inputs, Interpret, Execute/Dump of one shared Prog, LoadProg+Execute, Unmarshal good/bad, InterpretFile, Interpret with all options, a deep-stack/deep-nesting program, statistics of a shallow program and of the shared Prog): each call's result equals its result as the first call of a fresh state, and Dump(p) is unchanged by Execute(p); histories that start in a fresh process (each of three same-named struct types bound first) must give the same Bind outcome table; " +
+			"(c) every history of <=L calls (quick 3, thorough 4) over a 21-call alphabet (ParseFile with a data+error read, a Prog re-loaded in place from its own dump and executed, a second shared Prog with ~3 kB of code executed and dumped, another mid-size compilation, Parse of 3 inputs, Interpret, Execute/Dump of one shared Prog, LoadProg+Execute, Unmarshal good/bad, InterpretFile, Interpret with all options, a deep-stack/deep-nesting program, statistics of a shallow program and of the shared Prog): each call's result equals its result as the first call of a fresh state, and Dump(p) is unchanged by Execute(p); histories that start in a fresh process (each of three same-named struct types bound first) must give the same Bind outcome table; " +
 			"(d) supplementary (sampling): a digest over all first-call results from fresh processes with GOMAXPROCS 1/2/16 (different hash seeds) must be identical.",
 		Subs:           []*fw.Sub{subC16Map, subC16Unm, subC16Sched, subC16Hist, subC16Fresh},
 		BudgetQuick:    100,
 		BudgetThorough: 1500,
 		Assumptions: []string{"hash seeds are observable only through map iteration order and CPU counts only through scheduling; both are enumerated instead of sampled",
-			"histories are limited to the 20-call alphabet"},
+			"histories are limited to the 21-call alphabet"},
 		Run: func(c *fw.Ctx) {
 			for first := range c15RecTargets {
 				c.Do(subC16Fresh, &c16FreshCase{First: first})
